@@ -239,6 +239,37 @@ def check_flag(m, f, a3, a4):
     else:
         a3.ok(f.name, 'flag released on all %d exit state(s); nothing called while held' % len(res.exits), floc(m, f))
     if spec:
+        # the function that only *probes* a block (it holds a weak reference, no owner yet) must not look at the managed
+        # pointer inside it: that is plain memory the owners write when the last of them lets go
+        r0 = resolve_addr(f, spec[0].o[0]).root
+        from ..treewalk import _leaves
+        def _norm(x):
+            while isinstance(x, str) and f.get(x) is not None and f.get(x).op == 'bitcast':
+                x = f.get(x).o[0]
+            return x
+        same_block = set()
+        work_ = [r0]
+        while work_:
+            x = _norm(work_.pop())
+            if not isinstance(x, str) or x == 'null' or x in same_block:
+                continue
+            same_block.add(x)
+            xi = f.get(x)
+            if xi is not None and xi.op in ('phi', 'select'):
+                work_.extend(xi.o if xi.op == 'phi' else xi.o[1:])
+        plain = []
+        for i2 in f.all_insts():
+            if i2.op not in ('load', 'store') or i2.x.get('atomic'):
+                continue
+            a2 = resolve_addr(f, i2.o[0] if i2.op == 'load' else i2.o[1])
+            if _norm(a2.root) in same_block and a2.steps[:1] == ('up',):
+                plain.append(i2)
+        if plain:
+            a4.violation(f.name + ':managed-pointer', 'the weak-lock path reads / writes the managed pointer of the block it is only probing at %s with a plain '
+                         'access: the last owner re-initialises that pointer concurrently (a data race on the bookkeeping, whatever value is seen)'
+                         % plain[0].loc(), floc(m, f), {})
+        else:
+            a4.ok(f.name + ':managed-pointer', 'no plain access to the probed block\'s managed pointer', floc(m, f))
         if hard_rmw_outside:
             a4.violation(f.name, 'an RMW on the owner count at %s is outside the flag-held region: a second locker can observe the transient increment '
                          'and take the dead block for live' % sorted(hard_rmw_outside)[0], floc(m, f), {})
